@@ -109,7 +109,10 @@ impl<'a> SdesChunk<'a> {
                 ret.items.push(item);
             }
 
-            while offset < data.len() && data[offset] == 0 {
+            // zero fill up to the next 32-bit boundary only: the bytes after it belong to the next
+            // chunk, whose SSRC may well start with zero bytes
+            let aligned = pad_to_4bytes(offset);
+            while offset < aligned && offset < data.len() && data[offset] == 0 {
                 offset += 1;
             }
         }
